@@ -200,4 +200,77 @@ theorem header_never_wrong (c : Cfg) (v v' : Val) (hloc : c.loc = .header)
 #print axioms header_never_wrong
 #print axioms cookie_inverse
 #print axioms decodeObject_encodeObject
+
+/-! ### cookies: the same, behind the escape pair -/
+
+theorem cookie_never_wrong (c : Cfg) (v v' : Val) (hloc : c.loc = .cookie)
+    (hshape : match v with | .prim _ => c.shape = .prim | .arr _ => c.shape = .arr | .obj _ => c.shape = .obj)
+    (h : roundTrip c v = .ok v') : v' = v ∨ v = .arr [] := by
+  unfold roundTrip at h
+  simp only [hloc] at h
+  cases v with
+  | prim s =>
+    simp only at hshape
+    have henc : cookieEnc c (.prim s) = .ok (some (escapeCookie s)) := rfl
+    rw [henc] at h
+    simp only [cookie_inverse, flatDec, hshape] at h
+    cases h; exact Or.inl rfl
+  | arr items =>
+    simp only at hshape
+    by_cases hne : items = []
+    · exact Or.inr (by rw [hne])
+    · left
+      by_cases hex : c.explode = true
+      · have henc : cookieEnc c (.arr items) = .error .panic := by simp [cookieEnc, hex]
+        rw [henc] at h; cases h
+      · by_cases hany : (items.any fun it => contains it 0x2c) = true
+        · have henc : cookieEnc c (.arr items) = .error .encErr := by simp [cookieEnc, hex, hany]
+          rw [henc] at h; cases h
+        · have henc : cookieEnc c (.arr items) = .ok (some (escapeCookie (join 0x2c items))) := by
+            simp [cookieEnc, hex, hany]
+          rw [henc] at h
+          simp only [cookie_inverse, flatDec, hshape] at h
+          have hf : ∀ it ∈ items, contains it 0x2c = false := by
+            intro it hit
+            simp only [List.any_eq_true, not_exists, not_and, Bool.not_eq_true] at hany
+            exact hany it hit
+          rw [split_join' 0x2c items hne hf] at h
+          cases h; rfl
+  | obj fields =>
+    simp only at hshape
+    left
+    by_cases hemp : fields.isEmpty = true
+    · have henc : cookieEnc c (.obj fields) = .ok none := by simp [cookieEnc, hemp]
+      rw [henc] at h
+      cases h
+    · have hne' : fields ≠ [] := by intro h'; apply hemp; simp [h']
+      by_cases hex : c.explode = true
+      · have henc : cookieEnc c (.obj fields) = .error .panic := by simp [cookieEnc, hemp, hex]
+        rw [henc] at h; cases h
+      · by_cases hany : (fields.any fun (k, v) => contains k 0x2c || contains v 0x2c) = true
+        · have henc : cookieEnc c (.obj fields) = .error .encErr := by
+            simp only [cookieEnc, hemp, Bool.false_eq_true, if_false, hex]
+            simp [hany]
+          rw [henc] at h; cases h
+        · have henc : cookieEnc c (.obj fields) = .ok (some (escapeCookie (encodeObject 0x2c 0x2c fields))) := by
+            simp only [cookieEnc, hemp, Bool.false_eq_true, if_false, hex]
+            simp [hany]
+          rw [henc] at h
+          simp only [cookie_inverse, flatDec, hshape] at h
+          have hk : ∀ f ∈ fields, contains f.1 0x2c = false := by
+            intro f hf
+            simp only [List.any_eq_true, not_exists, not_and, Bool.not_eq_true, Bool.or_eq_false_iff] at hany
+            exact (hany f hf).1
+          have hvv : ∀ f ∈ fields, contains f.2 0x2c = false := by
+            intro f hf
+            simp only [List.any_eq_true, not_exists, not_and, Bool.not_eq_true, Bool.or_eq_false_iff] at hany
+            exact (hany f hf).2
+          cases hdec : decodeObject ((encodeObject 0x2c 0x2c fields).length + 2) 0x2c 0x2c (encodeObject 0x2c 0x2c fields) with
+          | none => simp [hdec] at h
+          | some l =>
+            simp only [hdec] at h
+            cases h
+            rw [decodeObject_encodeObject 0x2c 0x2c fields hne' hk hvv _ l hdec]
+
+#print axioms cookie_never_wrong
 end Codec
